@@ -365,7 +365,7 @@ func runRecordLevel(c *core.Ctx) {
 			}
 		})
 		if pi != nil {
-			c.Violation("c25-record-"+pi.Key, pi.Value+"\n"+pi.Stack, caseID, input)
+			c.Violation("c25-record-"+panicKey(pi), pi.Value+"\n"+pi.Stack, caseID, input)
 		}
 	}
 
@@ -417,7 +417,7 @@ func runRecordLevel(c *core.Ctx) {
 			var rm int
 			var good byte
 			if pi := core.Guard(func() { rm, good = ztls.VerifExtractPadding(append([]byte(nil), b...)) }); pi != nil {
-				c.Violation("c25-extractPadding-"+pi.Key, pi.Value, "rec/extractPadding", map[string]any{"payload": core.FullHex(b)})
+				c.Violation("c25-extractPadding-"+panicKey(pi), pi.Value, "rec/extractPadding", map[string]any{"payload": core.FullHex(b)})
 				continue
 			}
 			c.Eval(1)
